@@ -81,6 +81,28 @@ def consts() -> Dict[str, int]:
     return c
 
 
+def tunables(mgr) -> Dict[str, int]:
+    """Values no property fixes — the three reporting periods and the size of the receive buffer — are read from the
+    manager object under test (milliseconds / bytes); a tree that renames them falls back to the values of the pinned
+    commit, and a difference then shows up as a correspondence difference like any other."""
+    def ms(x, default):
+        try:
+            return int(round(float(x) * 1000))
+        except Exception:
+            return default
+    out = {"pTiming": 900, "pTraffic": 1000, "pInfo": 5000}
+    if mgr is None:
+        return out
+    out["pTiming"] = ms(getattr(mgr, "min_timing_message_period", 0.9), 900)
+    out["pTraffic"] = ms(getattr(mgr, "TRAFFIC_INTERVAL", 1.0), 1000)
+    out["pInfo"] = ms(getattr(mgr, "INFO_INTERVAL", 5.0), 5000)
+    try:
+        out["bufMax"] = len(mgr.data_buffer)
+    except Exception:
+        pass
+    return out
+
+
 # ------------------------------------------------------------------------------------------------------------------
 # script -> fake rounds, script -> protocol
 # ------------------------------------------------------------------------------------------------------------------
@@ -356,6 +378,7 @@ def run_script(script: List[Dict[str, Any]], *, timecode: bool = False, log_leve
     final = final_tables(res) if not res["crash"] else []
     c = consts()
     c.update({"logLevel": log_level, "timing": 1 if timing else 0, "rev": 1 if order == "rev" else 0})
+    c.update(tunables(res.get("mgr")))
     cfg = "CFG " + " ".join(f"{k}={v}" for k, v in c.items())
     inp = to_protocol(script, timecode)
     partial_ok = {int(l.split()[1]) for l in obs if l.startswith("P ")}
